@@ -1184,6 +1184,27 @@ class DiskRefsContainer(RefsContainer):
             # errors depending on the specific operating system
             return None
 
+    def _check_packed_conflicts(self, name: Ref) -> None:
+        """Refuse a name that collides with a packed ref as file versus directory.
+
+        Loose refs collide in the file system; for refs that only exist in
+        packed-refs the same check has to be made explicitly, in both
+        directions: ``refs/heads/a/b`` cannot be created when ``refs/heads/a``
+        is packed, nor ``refs/heads/a`` when ``refs/heads/a/b`` is.
+        """
+        packed_refs = self.get_packed_refs()
+        if not packed_refs:
+            return
+        probe_ref = os.path.dirname(name)
+        while probe_ref:
+            if probe_ref in packed_refs:
+                raise NotADirectoryError(self.refpath(name))
+            probe_ref = os.path.dirname(probe_ref)
+        prefix = name + b"/"
+        for packed_name in packed_refs:
+            if packed_name.startswith(prefix):
+                raise IsADirectoryError(self.refpath(name))
+
     def _remove_empty_dirs(self, filename: bytes) -> None:
         """Remove a directory tree without files left at the path of a ref.
 
@@ -1251,6 +1272,7 @@ class DiskRefsContainer(RefsContainer):
         self._check_refname(name)
         self._check_refname(other)
         filename = self.refpath(name)
+        self._check_packed_conflicts(name)
         ensure_dir_exists(os.path.dirname(filename))
         self._remove_empty_dirs(filename)
         f = GitFile(filename, "wb")
@@ -1307,13 +1329,9 @@ class DiskRefsContainer(RefsContainer):
             realname = name
         filename = self.refpath(realname)
 
-        # make sure none of the ancestor folders is in packed refs
-        probe_ref = Ref(os.path.dirname(realname))
+        # make sure the name does not collide with a packed ref
+        self._check_packed_conflicts(realname)
         packed_refs = self.get_packed_refs()
-        while probe_ref:
-            if packed_refs.get(probe_ref, None) is not None:
-                raise NotADirectoryError(filename)
-            probe_ref = Ref(os.path.dirname(probe_ref))
 
         ensure_dir_exists(os.path.dirname(filename))
         with GitFile(filename, "wb") as f:
@@ -1392,6 +1410,7 @@ class DiskRefsContainer(RefsContainer):
             realname = name
         self._check_refname(realname)
         filename = self.refpath(realname)
+        self._check_packed_conflicts(realname)
         ensure_dir_exists(os.path.dirname(filename))
         self._remove_empty_dirs(filename)
         with GitFile(filename, "wb") as f:
